@@ -365,6 +365,9 @@ func (x *Exec) assumeWF(st *State, t types.Type, l []*Term) {
 	switch u := t.Underlying().(type) {
 	case *types.Slice:
 		x.assume(st, x.sliceWF(l[0], l[1], l[2], l[3]))
+	case *types.Interface:
+		z := x.tb.BVInt(0, 64)
+		x.assume(st, x.tb.Implies(x.tb.Eq(l[0], z), x.tb.Eq(l[1], z)))
 	case *types.Basic:
 		if u.Kind() == types.String {
 			z := x.tb.BVInt(0, 64)
